@@ -21,6 +21,7 @@ import (
 	"testing"
 	"unsafe"
 
+	gedcom "github.com/elliotchance/gedcom/v39"
 	"github.com/elliotchance/gedcom/v39/html"
 	"github.com/elliotchance/gedcom/v39/html/core"
 	"simrt"
@@ -51,6 +52,9 @@ type PubVariant struct {
 	// process, with PriorOptions; -1 = none.
 	Prior        int         `json:"prior"`
 	PriorOptions *PubOptions `json:"prior_options,omitempty"`
+	// SameObject: the earlier publish uses the very same *gedcom.Document
+	// value as the publish under test (Prior must be 0).
+	SameObject bool `json:"same_object,omitempty"`
 }
 
 type DiskFault struct {
@@ -171,6 +175,12 @@ func runPublish(t *testing.T, cr *CaseResult, prop string, text string, opts Pub
 	if err != nil {
 		return nil, false
 	}
+	return runPublishDoc(t, cr, prop, doc, opts, jobs, sim, today, faults)
+}
+
+// runPublishDoc publishes an already decoded document (used when two
+// publishes have to share one *gedcom.Document value).
+func runPublishDoc(t *testing.T, cr *CaseResult, prop string, doc *gedcom.Document, opts PubOptions, jobs int, sim simrt.Config, today string, faults []DiskFault) (*pubRun, bool) {
 	labels := map[unsafe.Pointer]int{}
 	labelDoc(labels, doc, 0)
 	sim.Labels = labels
@@ -480,6 +490,36 @@ func hostileGraph(r *rand.Rand, tier string) *Graph {
 			s.Ptr = pick(r, hostilePtr)
 		}
 	}
+	// hostile pointers on individuals and families too (references follow)
+	rename := map[string]string{}
+	for _, p := range g.People {
+		if r.IntN(8) == 0 {
+			np := pick(r, hostilePtr) + fmt.Sprint(r.IntN(3))
+			rename[p.Ptr] = np
+			p.Ptr = np
+		}
+		if r.IntN(10) == 0 {
+			p.Names = nil // no NAME at all
+		} else if r.IntN(14) == 0 {
+			p.Names = []string{""} // empty NAME
+		}
+	}
+	for _, f := range g.Families {
+		if n, ok := rename[f.Husb]; ok {
+			f.Husb = n
+		}
+		if n, ok := rename[f.Wife]; ok {
+			f.Wife = n
+		}
+		for i, c := range f.Chil {
+			if n, ok := rename[c]; ok {
+				f.Chil[i] = n
+			}
+		}
+		if r.IntN(10) == 0 {
+			f.Ptr = pick(r, hostilePtr) + "f"
+		}
+	}
 	for _, p := range g.People {
 		switch r.IntN(14) {
 		case 0: // same name as somebody else
@@ -529,8 +569,9 @@ func genPublishCase(prop, tier string, r *rand.Rand) *Case {
 			v.PriorOptions = &po
 		case 1:
 			v.Prior = 0 // the same document with other options first
-			po := genPubOptions(r, []string{"show"})
+			po := genPubOptions(r, []string{"show", "hide", "placeholder"})
 			v.PriorOptions = &po
+			v.SameObject = r.IntN(2) == 0
 		}
 		cfg.Variants = append(cfg.Variants, v)
 	}
@@ -583,6 +624,18 @@ func runPublishCase(t *testing.T, c *Case) *CaseResult {
 	cfg := c.Publish
 	prop := c.Prop
 
+	// process history as part of the case: with FreshProcess another document
+	// is published before anything else, and the canonical result is later
+	// compared with the same publish in a process that never published
+	// anything (so the violation replays from the case file alone)
+	if cfg.FreshProcess && len(c.Docs) > 1 {
+		sub := &CaseResult{Prop: prop, Probes: map[string]int64{}, Counters: map[string]int64{}}
+		all := PubOptions{Individuals: true, Places: true, Families: true, Surnames: true, Sources: true, Statistics: true, Visibility: "show"}
+		runPublish(t, sub, prop, c.Docs[1], all, 1, simrt.Config{Mode: "default", MapOrder: "identity"}, c.Today, nil)
+		cr.Runs++
+		cr.count("history.prior_publish", 1)
+	}
+
 	// canonical run
 	canon, ok := runPublish(t, cr, prop, c.Docs[0], cfg.Options, cfg.Jobs, c.Sim, c.Today, nil)
 	if !ok {
@@ -603,13 +656,27 @@ func runPublishCase(t *testing.T, c *Case) *CaseResult {
 
 	// variants: schedule, jobs, map order, process history
 	for vi, v := range cfg.Variants {
-		if v.Prior >= 0 && v.Prior < len(c.Docs) && v.PriorOptions != nil {
+		var run *pubRun
+		if v.Prior == 0 && v.SameObject && v.PriorOptions != nil {
+			doc, err := decode(c.Docs[0])
+			if err != nil {
+				continue
+			}
 			sub := &CaseResult{Prop: prop, Probes: map[string]int64{}, Counters: map[string]int64{}}
-			runPublish(t, sub, prop, c.Docs[v.Prior], *v.PriorOptions, 1, simrt.Config{Mode: "default", MapOrder: "identity"}, c.Today, nil)
+			runPublishDoc(t, sub, prop, doc, *v.PriorOptions, 1, simrt.Config{Mode: "default", MapOrder: "identity"}, c.Today, nil)
 			cr.Runs++
 			cr.count("history.prior_publish", 1)
+			cr.count("history.same_document_object", 1)
+			run, _ = runPublishDoc(t, cr, prop, doc, cfg.Options, v.Jobs, v.Sim, c.Today, nil)
+		} else {
+			if v.Prior >= 0 && v.Prior < len(c.Docs) && v.PriorOptions != nil {
+				sub := &CaseResult{Prop: prop, Probes: map[string]int64{}, Counters: map[string]int64{}}
+				runPublish(t, sub, prop, c.Docs[v.Prior], *v.PriorOptions, 1, simrt.Config{Mode: "default", MapOrder: "identity"}, c.Today, nil)
+				cr.Runs++
+				cr.count("history.prior_publish", 1)
+			}
+			run, _ = runPublish(t, cr, prop, c.Docs[0], cfg.Options, v.Jobs, v.Sim, c.Today, nil)
 		}
-		run, _ := runPublish(t, cr, prop, c.Docs[0], cfg.Options, v.Jobs, v.Sim, c.Today, nil)
 		if v.Jobs > 1 {
 			cr.Probes["jobs>1"]++
 		}
@@ -636,17 +703,16 @@ func runPublishCase(t *testing.T, c *Case) *CaseResult {
 		if err != nil {
 			cr.observe("fresh process run failed: " + err.Error())
 		} else {
-			// the in-process canonical run is repeated now (this process has
-			// published other documents by now)
-			again, _ := runPublish(t, cr, prop, c.Docs[0], cfg.Options, cfg.Jobs, c.Sim, c.Today, nil)
-			if again.res.Outcome == "completed" {
-				mine := fileDigest(again.files)
-				if fmt.Sprint(mine) != fmt.Sprint(fresh) {
-					cr.violate(prop+"/determinism", "differs from a fresh process",
-						fmt.Sprintf("digests in this process (which published before): %v\nin a fresh process: %v", mine, fresh))
-				}
-				cr.Probes["fresh_process_compared"]++
+			mine := fileDigest(canon.files)
+			for n := range canon.collided() {
+				delete(mine, n)
+				delete(fresh, n)
 			}
+			if fmt.Sprint(mine) != fmt.Sprint(fresh) {
+				cr.violate(prop+"/determinism", "differs from a fresh process",
+					fmt.Sprintf("digests in this process (which published another document before): %v\nin a fresh process: %v", mine, fresh))
+			}
+			cr.Probes["fresh_process_compared"]++
 		}
 	}
 
